@@ -273,6 +273,12 @@ def triage(r):
         return "M_str/N_str/S_str keep the seeds for information; nothing reads them and no property names them"
     if w == "_extract_message" and k == "cmp" and r["line"] == 222:
         return "selects the text of the error message only"
+    if k == "argswap" and (old.startswith("min(") or old.startswith("max(")):
+        return "min and max are symmetric"
+    if w == "_extract_message" and (k.startswith("ifexp") or (k == "const" and old.strip('"') in ("A", "B")) or (k == "cmp" and r["line"] in (163, 216, 222))):
+        return "selects the text of the error message only"
+    if k == "binop" and old.strip() == "|" and w in ("_SPAKE2_Base", "<module>"):
+        return "type annotation (not evaluated: from __future__ import annotations)"
     if w.startswith("_require"):
         return "type guard helper (misuse)"
     if k == "del-expr" and "_require" in old:
